@@ -52,10 +52,90 @@ def _results(case):
 	return res, changed
 
 
+def _edited_db(tmp):
+	"""a copy of the bundled database whose taxonomy was edited (taxa renamed, one genus re-parented) under the SAME primary keys"""
+	import shutil, sqlite3, glob
+	from gambit.db import ReferenceDatabase
+	db, _ = _db()
+	src = os.path.dirname(str(db.session.get_bind().url.database))
+	dst = os.path.join(tmp, 'db2')
+	os.makedirs(dst)
+	for f in glob.glob(os.path.join(src, '*.gdb')) + glob.glob(os.path.join(src, '*.gs')):
+		shutil.copy(f, dst)
+	con = sqlite3.connect(glob.glob(os.path.join(dst, '*.gdb'))[0])
+	con.execute("UPDATE taxa SET name = name || ' (edited)'")
+	rows = con.execute("SELECT id, parent_id FROM taxa WHERE parent_id IS NOT NULL ORDER BY id").fetchall()
+	roots = [r[0] for r in con.execute("SELECT id FROM taxa WHERE parent_id IS NULL ORDER BY id").fetchall()]
+	# move every second child of the first root under the last root
+	if len(roots) >= 2:
+		kids = [i for i, p_ in rows if p_ == roots[0]]
+		for i in kids[::2]:
+			con.execute("UPDATE taxa SET parent_id = ? WHERE id = ?", (roots[-1], i))
+	con.commit()
+	con.close()
+	return ReferenceDatabase.load_from_dir(dst)
+
+
+def _json_problems(data, res):
+	"""full comparison of the basic JSON document with the results object it was made from"""
+	import numpy as np
+	problems = []
+	TF = ['id', 'key', 'name', 'ncbi_id', 'rank', 'distance_threshold']
+	tj = lambda t: None if t is None else {f: getattr(t, f) for f in TF}
+	if len(data['items']) != len(res.items):
+		problems.append('item count')
+	for d, it in zip(data['items'], res.items):
+		if d['query']['name'] != it.input.label:
+			problems.append('label')
+		for key, t in (('predicted_taxon', it.report_taxon), ('next_taxon', it.classifier_result.next_taxon)):
+			if d[key] != tj(t):
+				problems.append(key)
+		cg = d['closest_genomes']
+		if len(cg) != len(it.closest_genomes):
+			problems.append('closest_genomes length')
+		for c, m in zip(cg, it.closest_genomes):
+			g = m.genome
+			if c['genome']['key'] != g.key or c['genome']['id'] != g.genome_id or c['genome']['description'] != g.description or np.float32(c['distance']) != np.float32(m.distance):
+				problems.append('closest_genomes entry')
+			if c['genome']['taxonomy'] != [tj(t) for t in g.taxon.ancestors(incself=True)]:
+				problems.append(f'lineage of closest genome {g.key}')
+			if c.get('matched_taxon', tj(m.matched_taxon)) != tj(m.matched_taxon):
+				problems.append('matched taxon')
+	return problems
+
+
+def _reuse_case(case):
+	"""ONE exporter object per format used for a sequence of exports of results from two databases sharing primary keys"""
+	import tempfile, shutil
+	from gambit.query import query, QueryParams
+	from gambit.results import CSVResultsExporter, JSONResultsExporter, ResultsArchiveWriter
+	db1, qs = _db()
+	tmp = tempfile.mkdtemp(prefix='c11_')
+	try:
+		db2 = _edited_db(tmp)
+		rnd = random.Random(case['seed'])
+		exp = JSONResultsExporter()
+		problems = []
+		order = case.get('order', [1, 2, 1])
+		for step, which in enumerate(order):
+			db = db1 if which == 1 else db2
+			idx = [rnd.randrange(len(qs)) for _ in range(case['n'])]
+			res = query(db, [qs[i] for i in idx], QueryParams(report_closest=3))
+			buf = io.StringIO()
+			exp.export(buf, res)
+			pr = _json_problems(json.loads(buf.getvalue()), res)
+			problems += [f'export {step} (database {which}): {x}' for x in pr[:3]]
+		return {'ok': not problems, 'expected': 'every export through a reused exporter equals its own results', 'actual': problems or 'ok'}
+	finally:
+		shutil.rmtree(tmp, ignore_errors=True)
+
+
 def run_case(case):
 	import numpy as np
 	from gambit.results import CSVResultsExporter, JSONResultsExporter, ResultsArchiveWriter, ResultsArchiveReader
 	db, _ = _db()
+	if case['fmt'] == 'json-reuse':
+		return _reuse_case(case)
 	res, changed = _results(case)
 	try:
 		fmt = case['fmt']
@@ -78,18 +158,7 @@ def run_case(case):
 			buf = io.StringIO()
 			JSONResultsExporter().export(buf, res)
 			data = json.loads(buf.getvalue())
-			problems = []
-			if len(data['items']) != len(res.items):
-				problems.append('item count')
-			for d, it in zip(data['items'], res.items):
-				if d['query']['name'] != it.input.label:
-					problems.append('label')
-				for key, t in (('predicted_taxon', it.report_taxon), ('next_taxon', it.classifier_result.next_taxon)):
-					if (d[key] is None) != (t is None) or (t is not None and (d[key]['name'] != t.name or d[key]['key'] != t.key or d[key]['distance_threshold'] != t.distance_threshold)):
-						problems.append(key)
-				cg = d['closest_genomes']
-				if len(cg) != len(it.closest_genomes) or any(c['genome']['key'] != m.genome.key or np.float32(c['distance']) != np.float32(m.distance) for c, m in zip(cg, it.closest_genomes)):
-					problems.append('closest_genomes')
+			problems = _json_problems(data, res)
 			return {'ok': not problems, 'expected': 'same data', 'actual': problems or 'ok'}
 		if fmt == 'archive':
 			for obj, attr, old in changed:
@@ -122,6 +191,8 @@ def bounded(tier, seed):
 	for _ in range(20 if tier == 'quick' else 300):
 		cases.append({'fmt': rnd.choice(['csv', 'csv', 'json', 'archive']), 'seed': rnd.randrange(10 ** 6), 'n': rnd.choice([1, 2, 5]),
 		              'strict': rnd.random() < .4, 'rename': rnd.random() < .7, 'unreport': rnd.random() < .3})
+	for order in ([1, 2], [2, 1], [1, 2, 1]):
+		cases.append({'fmt': 'json-reuse', 'seed': rnd.randrange(10 ** 6), 'n': 3, 'order': order})
 	# the carriage-return class separately (known finding)
 	cases.append({'fmt': 'csv', 'seed': 5, 'n': 2, 'rename': True, 'strings': ['bare\rcarriage return']})
 	n, failures, sample = 0, [], []
@@ -133,5 +204,5 @@ def bounded(tier, seed):
 		if not r.get('ok'):
 			cls = 'bare-CR' if c.get('strings') == ['bare\rcarriage return'] else c['fmt']
 			failures.append({'case': c, 'expected': r.get('expected'), 'actual': r.get('actual'), 'class': cls})
-	return {'tool': 'real exporters on results of a real query (hostile names, unreportable taxa, strict mode, missing files); CSV/JSON parsed back, archive read back',
+	return {'tool': 'real exporters on results of a real query (hostile names, unreportable taxa, strict mode, missing files); CSV/JSON parsed back (JSON compared field by field incl. the lineage of every closest genome), archive read back; one JSON exporter object reused across databases that share primary keys',
 	        'bound': f'{len(cases)} result sets of <= 5 items', 'cases': n, 'failures': failures[:4], 'samples': sample}
